@@ -195,8 +195,8 @@ def e2_specs(tier):
 
 
 def subscriber_scenarios(tier):
-  """the subscriber programs are loop-free (the registry walk is one snapshot): K = number of operations + 2 per thread + 2 covers every behaviour, which the
-  adequacy query confirms; computed from the translated code"""
+  """the subscriber programs have one bounded loop (the walk over the queues registered so far): K = number of operations + 2 per thread + 2 + the
+  walk's steps covers every behaviour, which the adequacy query confirms; computed from the translated code"""
   from vf.e2 import check, ir
   kws = [dict(kind="fifo", prior=False, n=2), dict(kind="fifo", prior=True, n=2)]
   if tier != "quick":
@@ -205,7 +205,8 @@ def subscriber_scenarios(tier):
   for kw in kws:
     _sc, sysm = check.build("subscribers", kw)
     nops = sum(1 for p in sysm.programs for n in p.nodes if isinstance(n, ir.Op) and (p.tid, n.id) not in sysm.invisible)      # steps are taken at visible operations
-    out.append((kw, min(60, nops + 2 * len(sysm.programs) + 2)))      # + each thread's entry and exit step
+    # + each thread's entry and exit step + the walk over the registered queues (one step per element, the only loop)
+    out.append((kw, min(60, nops + 2 * len(sysm.programs) + 2 + kw["n"] * (kw["n"] + 1))))
   return out
 
 
